@@ -17,6 +17,7 @@ import (
 // ReplayInfo is what is needed to call the real function with model values.
 type ReplayInfo struct {
 	PkgName  string
+	PkgPath  string
 	PkgDir   string // relative to repo root
 	Func     string // function name (no receiver support yet)
 	Method   bool
@@ -344,14 +345,23 @@ func (ri *ReplayInfo) goLiterals(script string) ([]string, bool) {
 	return lits, true
 }
 
-// goExpr translates a quantifier-free spec expression to Go source.
-func goExpr(e *SExpr) (string, bool) {
+// goTr translates quantifier-free spec expressions to Go source.
+type goTr struct {
+	specs func(name string) *SpecFn
+	sub   map[string]string
+	depth int
+}
+
+func (g *goTr) expr(e *SExpr) (string, bool) {
 	switch e.Op {
 	case "lit":
 		return e.Lit, true
 	case "str":
 		return strconv.Quote(e.Lit), true
 	case "ident":
+		if r, ok := g.sub[e.Name]; ok {
+			return r, true
+		}
 		switch e.Name {
 		case "MaxInt":
 			return "math.MaxInt", true
@@ -362,11 +372,11 @@ func goExpr(e *SExpr) (string, bool) {
 		}
 		return e.Name, true
 	case "un":
-		a, ok := goExpr(e.Args[0])
+		a, ok := g.expr(e.Args[0])
 		return "(" + e.Name + a + ")", ok
 	case "bin":
-		a, ok1 := goExpr(e.Args[0])
-		b, ok2 := goExpr(e.Args[1])
+		a, ok1 := g.expr(e.Args[0])
+		b, ok2 := g.expr(e.Args[1])
 		if !ok1 || !ok2 {
 			return "", false
 		}
@@ -375,48 +385,136 @@ func goExpr(e *SExpr) (string, bool) {
 			return "(!(" + a + ") || (" + b + "))", true
 		case "<==>":
 			return "((" + a + ") == (" + b + "))", true
+		case "===":
+			return "(" + a + " == " + b + ")", true
 		}
 		return "(" + a + " " + e.Name + " " + b + ")", true
 	case "ite":
-		c, ok1 := goExpr(e.Args[0])
-		a, ok2 := goExpr(e.Args[1])
-		b, ok3 := goExpr(e.Args[2])
-		return "verifIte(" + c + ", " + a + ", " + b + ")", ok1 && ok2 && ok3
+		c, ok1 := g.expr(e.Args[0])
+		a, ok2 := g.expr(e.Args[1])
+		b, ok3 := g.expr(e.Args[2])
+		// lazy branches: the untaken branch may index out of range
+		return "verifIte(" + c + ", func() any { return " + a + " }, func() any { return " + b + " })", ok1 && ok2 && ok3
 	case "field":
-		a, ok := goExpr(e.Args[0])
+		a, ok := g.expr(e.Args[0])
 		return a + "." + e.Name, ok
 	case "index":
-		a, ok1 := goExpr(e.Args[0])
-		b, ok2 := goExpr(e.Args[1])
+		a, ok1 := g.expr(e.Args[0])
+		b, ok2 := g.expr(e.Args[1])
 		return a + "[" + b + "]", ok1 && ok2
 	case "slice":
-		a, ok := goExpr(e.Args[0])
+		a, ok := g.expr(e.Args[0])
 		lo, hi := "", ""
 		if e.Args[1] != nil {
 			var ok1 bool
-			lo, ok1 = goExpr(e.Args[1])
+			lo, ok1 = g.expr(e.Args[1])
 			ok = ok && ok1
 		}
 		if e.Args[2] != nil {
 			var ok2 bool
-			hi, ok2 = goExpr(e.Args[2])
+			hi, ok2 = g.expr(e.Args[2])
 			ok = ok && ok2
 		}
 		return a + "[" + lo + ":" + hi + "]", ok
+	case "assert":
+		a, ok := g.expr(e.Args[0])
+		return "verifAs[" + e.VType + "](" + a + ")", ok
 	case "call":
-		if e.Args[0].Op == "ident" {
-			switch e.Args[0].Name {
-			case "len", "cap":
-				a, ok := goExpr(e.Args[1])
-				return e.Args[0].Name + "(" + a + ")", ok
-			case "old":
-				// parameters are passed by value: old(p) == p for the simple types replayed here
-				return goExpr(e.Args[1])
+		if e.Args[0].Op != "ident" {
+			return "", false
+		}
+		name := e.Args[0].Name
+		var as []string
+		for _, a := range e.Args[1:] {
+			if a.Op == "type" {
+				as = append(as, a.VType)
+				continue
+			}
+			x, ok := g.expr(a)
+			if !ok {
+				return "", false
+			}
+			as = append(as, x)
+		}
+		switch name {
+		case "len", "cap":
+			return name + "(" + as[0] + ")", true
+		case "old":
+			return as[0], true
+		case "istype":
+			return "verifIs[" + as[1] + "](" + as[0] + ")", true
+		case "runeat":
+			return "verifRuneAt(" + as[0] + ", " + as[1] + ")", true
+		case "sizeat":
+			return "verifSizeAt(" + as[0] + ", " + as[1] + ")", true
+		case "lastrune":
+			return "verifLastRune(" + as[0] + ", " + as[1] + ")", true
+		case "lastsize":
+			return "verifLastSize(" + as[0] + ", " + as[1] + ")", true
+		case "sindex":
+			return "strings.Index(" + as[0] + ", " + as[1] + ")", true
+		case "atoi_ok":
+			return "verifAtoiOK(" + as[0] + ")", true
+		case "atoi_val":
+			return "verifAtoiVal(" + as[0] + ")", true
+		case "isnan":
+			return "math.IsNaN(" + as[0] + ")", true
+		}
+		if g.specs != nil && g.depth < 12 {
+			if sf := g.specs(name); sf != nil && sf.Body != nil && !sf.Rec && len(sf.Params) == len(as) {
+				sub := map[string]string{}
+				for i, p := range sf.Params {
+					sub[p] = "(" + as[i] + ")"
+				}
+				inner := &goTr{specs: g.specs, sub: sub, depth: g.depth + 1}
+				return inner.expr(sf.Body)
 			}
 		}
 	}
 	return "", false
 }
+
+const replayHelpers = `
+func verifIte(c bool, a, b func() any) any {
+	if c {
+		return a()
+	}
+	return b()
+}
+
+func verifAs[T any](v any) T { x, _ := v.(T); return x }
+func verifIs[T any](v any) bool { _, ok := v.(T); return ok }
+func verifRuneAt(s string, i int) rune {
+	if i < 0 || i > len(s) {
+		return utf8.RuneError
+	}
+	r, _ := utf8.DecodeRuneInString(s[i:])
+	return r
+}
+func verifSizeAt(s string, i int) int {
+	if i < 0 || i > len(s) {
+		return 0
+	}
+	_, z := utf8.DecodeRuneInString(s[i:])
+	return z
+}
+func verifLastRune(s string, i int) rune {
+	if i < 0 || i > len(s) {
+		return utf8.RuneError
+	}
+	r, _ := utf8.DecodeLastRuneInString(s[:i])
+	return r
+}
+func verifLastSize(s string, i int) int {
+	if i < 0 || i > len(s) {
+		return 0
+	}
+	_, z := utf8.DecodeLastRuneInString(s[:i])
+	return z
+}
+func verifAtoiOK(s string) bool { _, err := strconv.Atoi(s); return err == nil }
+func verifAtoiVal(s string) int { v, _ := strconv.Atoi(s); return v }
+`
 
 func (r *Report) tryGoReplay(g *Group, inputs map[string]string, base string, b *strings.Builder) (string, bool) {
 	ob := g.Fail
@@ -440,8 +538,9 @@ func (r *Report) tryGoReplay(g *Group, inputs map[string]string, base string, b 
 	}
 	var src strings.Builder
 	fmt.Fprintf(&src, "// gvc-replay pkgdir=%s run=TestVerifReplay\n// Generated by gvc from the counterexample of obligation %s (%s).\n", ri.PkgDir, g.Name, ob.Desc)
-	fmt.Fprintf(&src, "package %s\n\nimport (\n\t\"math\"\n\t\"testing\"\n\t\"unicode/utf8\"\n)\n\nvar _ = math.MaxInt\nvar _ = utf8.RuneError\n\n", ri.PkgName)
-	fmt.Fprintf(&src, "func verifIte[T any](c bool, a, b T) T {\n\tif c {\n\t\treturn a\n\t}\n\treturn b\n}\n\n")
+	fmt.Fprintf(&src, "package %s\n\nimport (\n\t\"math\"\n\t\"strconv\"\n\t\"strings\"\n\t\"testing\"\n\t\"unicode/utf8\"\n)\n\nvar _ = math.MaxInt\nvar _ = utf8.RuneError\nvar _ = strings.Index\nvar _ = strconv.Atoi\n", ri.PkgName)
+	src.WriteString(replayHelpers)
+	src.WriteString("\n")
 	fmt.Fprintf(&src, "func TestVerifReplay(t *testing.T) {\n")
 	for i, p := range ri.Params {
 		fmt.Fprintf(&src, "\t%s := %s\n\t_ = %s\n", p, lits[i], p)
@@ -457,7 +556,8 @@ func (r *Report) tryGoReplay(g *Group, inputs map[string]string, base string, b 
 	}
 	expectPanicOnly := ri.Clause == nil
 	if !expectPanicOnly {
-		ge, ok := goExpr(ri.Clause)
+		tr := &goTr{specs: func(n string) *SpecFn { return r.eng.lookupSpec(r.eng.pkgs[ri.PkgPath], n) }}
+		ge, ok := tr.expr(ri.Clause)
 		if !ok {
 			fmt.Fprintf(b, "\nreplay: the violated clause uses quantifiers/spec functions and cannot be evaluated at run time; inputs: %s\n", strings.Join(lits, ", "))
 			return "", false
